@@ -137,6 +137,15 @@ bool index_read(zckCtx *zck, char *data, size_t size, size_t max_length) {
             return false;
         }
         new->length = chunk_length;
+        /* An entry without stored data can't have content, and without
+         * compression the stored and uncompressed sizes are the same.  Anything
+         * else makes the reader hand out bytes of a neighbouring chunk */
+        if((new->comp_length == 0 && new->length != 0) ||
+           (zck->comp.type == ZCK_COMP_NONE &&
+            new->comp_length != new->length)) {
+            set_fatal_error(zck, "Chunk %i has inconsistent sizes", count);
+            return false;
+        }
         new->zck = zck;
         new->valid = 0;
         new->number = count;
